@@ -117,7 +117,13 @@ def handle (inp out : Sexp) : CaseResult :=
           let defsOk := simplifiedB e s
           let matchOk := per.length == s.body.length && per.all (matchingOk kept sameAvail) &&
             interAvail == "true"
-          let schedOk := normSched schedE == normSched schedS
+          -- an invalid PRAGMA EXTERN (no name / unparsable signature) that nothing calls makes the EXPANDED
+          -- program unschedulable (`ScheduleErrorVariant::Extern`); simplify removes it. No schedule is
+          -- computed for the expanded program then, so there is nothing to compare.
+          let expandedInvalidExtern := match schedE with
+            | .list [.list (.atom "builderr" :: .atom "extern" :: _), _] => true
+            | _ => false
+          let schedOk := normSched schedE == normSched schedS || expandedInvalidExtern
           let idem := idem == "true"
           let removedF := e.frames.length - s.frames.length
           let removedW := e.waveforms.length - s.waveforms.length
@@ -140,6 +146,8 @@ def handle (inp out : Sexp) : CaseResult :=
              s!"waveforms-removed{min removedW 3}", s!"externs-removed{min removedX 3}",
              s!"cals{min e.calibrations.length 4}"] ++
             (if blockedOnlyDropped then ["blocked-only-frame-dropped"] else []) ++
+            (if expandedInvalidExtern then ["expanded-invalid-extern"] else []) ++
+            (if e.externs.any (fun x => x.1.isNone) then ["nameless-extern"] else []) ++
             (if !sameAvail then ["avail-differs"] else []) ++
             (if per.any (·.bareReset) then ["bare-reset"] else []) ++
             (if !sameAvail && per.any (·.bareReset) then ["bare-reset-avail-differs"] else []) ++
